@@ -127,6 +127,32 @@ func c06Oracle(c *vlib.Case) *vlib.Violation {
 			return vlib.V("c06:in-process:"+class, "build #%d differs from build #0 of the same project:\n #0: %s\n #%d: %s%s", i, pretty(first), i, pretty(k), detail)
 		}
 	}
+	// the same file paths with other content before: a project of several files is written to a directory in which
+	// another version of it (one included file replaced) has just been built - nothing of that build may show
+	if len(c.Project.Files) > 1 && !c.Project.NoRoot {
+		other := c.Project.Clone()
+		for _, n := range other.Names() {
+			if n != other.Root {
+				other.Files[n] = []byte("# another version of this file\nTYPE @zzFromAnotherVersion\n  1\n")
+				break
+			}
+		}
+		other.FixedDir = "c06"
+		ob := vlib.Build(other)
+		if ob.Out.OK() {
+			_, _ = ob.Api.ToJson()
+		}
+		// (not closed: the directory is reused, emptied and rewritten by the next build)
+		same := c.Project.Clone()
+		same.FixedDir = "c06"
+		sb := vlib.Build(same)
+		k := outcomeKey(sb)
+		sb.Close()
+		if !sb.Out.Crashed() && k != first {
+			class := c06RefineLocationClass(c.Project, c06DiffClass(first, k), first, k)
+			return vlib.V("c06:after-another-version-at-the-same-paths:"+class, "built in a directory where another version of the project had been built before:\n fresh directory: %s\n same paths:      %s", pretty(first), pretty(k))
+		}
+	}
 	// fresh process
 	_, info := vlib.SharedIso().Run(c)
 	otherJSON := ""
